@@ -131,7 +131,8 @@ def static_exec(n=25):
 
 def moved(maker, p=0.08):
     def f(rng):
-        return [(h, gen.with_moves(rng, cmds, p)) for h, cmds in maker(rng)]
+        # every second execution assigns onto targets built with other parameters (node size, block size)
+        return [(gen.alt_target(rng, h) if rng.random() < 0.5 else h, gen.with_moves(rng, cmds, p)) for h, cmds in maker(rng)]
     return f
 
 
